@@ -100,6 +100,17 @@ pub fn check(c: &Case) -> Result<(), String> {
             legacy.extend_from_slice(&a);
             let hl: Hash = ciborium::from_reader(&legacy[..]).map_err(|e| format!("legacy CBOR byte-string form rejected: {}", e))?;
             ensure!(hl.as_bytes() == &a, "legacy byte-string form decodes to a different value");
+            // a NON-self-describing binary format (bincode's layout rules, engine/harness/src/fixbin.rs): the shape that
+            // Serialize announces (tuple / sequence / bytes) must be the shape Deserialize asks for, alone and between
+            // other fields
+            let fb = crate::fixbin::to_vec(&h).map_err(|e| format!("binary (non-self-describing) serialization failed: {}", e))?;
+            let (hb, used): (Hash, usize) = crate::fixbin::from_slice(&fb).map_err(|e| format!("binary (non-self-describing) round trip failed: {} (serialized form: {} bytes)", e, fb.len()))?;
+            ensure!(hb.as_bytes() == &a, "round trip through a non-self-describing binary serde format changed the value: {} -> {} ({} bytes on the wire)", want, hb.to_hex(), fb.len());
+            ensure!(used == fb.len(), "non-self-describing binary form: Serialize wrote {} bytes, Deserialize consumed {}", fb.len(), used);
+            let rec = (0xA1B2C3D4u32, h, 0x55AAu16, h2, 7u8);
+            let fb2 = crate::fixbin::to_vec(&rec).map_err(|e| e.to_string())?;
+            let (back, used2): ((u32, Hash, u16, Hash, u8), usize) = crate::fixbin::from_slice(&fb2).map_err(|e| format!("binary round trip of a record with two hashes failed: {}", e))?;
+            ensure!(back.0 == rec.0 && back.1.as_bytes() == &a && back.2 == rec.2 && back.3.as_bytes() == &a && back.4 == rec.4 && used2 == fb2.len(), "a record containing hashes does not survive the non-self-describing binary format");
             Ok(())
         }
         Case::HexInput(s) => {
@@ -302,7 +313,7 @@ pub fn subs() -> Vec<Box<dyn DynSub>> {
     vec![
         Box::new(EnumSub::<Case> {
             name: "sweeps",
-            rule: "enumeration: every byte value at every position of a hash (8192 values: to_hex/Display/from_hex/FromStr/[u8;32]/as_bytes/as_slice/from_slice/serde JSON+CBOR sequence form/legacy CBOR byte string); every byte value at every position of an otherwise valid lower- or upper-case hex string (16384 inputs); hex and non-hex strings of every length 0..=130; from_slice for every length 0..=100; all 256 single-bit-different pairs and equal pairs; all 32640 two-bit-different pairs; the same XOR difference in every non-empty set of 16/8/4/2-byte lanes (differences that cancel in a folded comparison); oracle = independent hex codec and byte equality",
+            rule: "enumeration: every byte value at every position of a hash (8192 values: to_hex/Display/from_hex/FromStr/[u8;32]/as_bytes/as_slice/from_slice/serde JSON+CBOR sequence form/legacy CBOR byte string/round trip through a non-self-describing bincode-layout format, alone and inside a record); every byte value at every position of an otherwise valid lower- or upper-case hex string (16384 inputs); hex and non-hex strings of every length 0..=130; from_slice for every length 0..=100; all 256 single-bit-different pairs and equal pairs; all 32640 two-bit-different pairs; the same XOR difference in every non-empty set of 16/8/4/2-byte lanes (differences that cancel in a folded comparison); oracle = independent hex codec and byte equality",
             items: sweep_items,
             classify,
             check,
